@@ -55,8 +55,8 @@ ChunkBodies == { <<La("ok"), E>>, <<Ch("ext"), Ch("ok"), La("ext"), E>>,
                  <<Ch("ok"), La("ok"), Tr("ok"), E>>, <<Ch("ok"), La("ok"), Tr("forbidden"), E>>,
                  <<Ch("ok"), La("ok"), Tr("lf"), E>>, <<Ch("ok"), La("ok"), Tr("ok"), E, S>>,
                  <<Ch("ok"), La("ok")>>, <<Ch("ok"), E>>, <<Ch("ok"), La("ok"), S>> }
-            \cup { <<Ch(f), La("ok"), E>> : f \in {"badsize", "nocrlf", "lfext", "barelf", "oversize", "bwsext"} }
-            \cup { <<Ch("ok"), Ch(f), La("ok"), E, S>> : f \in {"badsize", "nocrlf", "barelf"} }
+            \cup { <<Ch(f), La("ok"), E>> : f \in {"badsize", "nocrlf", "badterm", "lfext", "barelf", "oversize", "bwsext"} }
+            \cup { <<Ch("ok"), Ch(f), La("ok"), E, S>> : f \in {"badsize", "nocrlf", "badterm", "barelf"} }
 CoreBodies == { <<>>, <<D>>, <<D, S>>, <<S>>, <<Ch("ok"), La("ok"), E>>, <<Ch("ok"), La("ok"), E, S>>, <<MP, S>> }
 
 HasTE(h) == \E i \in 1..Len(h) : h[i][1] = "TE"
